@@ -251,7 +251,7 @@ PROPS = {
     "C08": dict(
         coq="Properties/C08.v",
         suites=[dict(name="send", pkg="./client/", test="TestVerifSend", min_lines=500),
-                e2e_suite("ooo,faults", ["logged_sent_before_all_bytes_acknowledged"], n=12)],
+                e2e_suite("ooo,faults", ["logged_sent_before_all_bytes_acknowledged", "part_counted_as_held_not_on_record"], n=12)],
         rule=("send: the real startSend / handleSendError / payload.Bin.Split / Remove against a scripted network: exhaustively every failure position of every "
               "payload of 1..5 parts x {partial-content answer with count k, error without count + recovery request answering k after 0..2 failed recovery "
               "requests}, plus seeded scripts of up to 4 consecutive failures on payloads of 1..7 parts with files changing between attempts; the parts of "
@@ -271,7 +271,7 @@ PROPS = {
     "C02": dict(
         coq="Properties/C02.v",
         suites=[e2e_suite("plain,faults,reuse,mutate,crash,swap,pollnone", ["deleted_without_validated_copy", "source_gone_receiver_lacks_it", "released_without_positive_answer"], n=9),
-                dict(STAGE_SUITE, oracles=["positive_status_without_copy"], diffs=["status"])],
+                dict(STAGE_SUITE, oracles=["positive_status_without_copy", "positive_status_for_another_version"], diffs=["status"])],
         rule=E2E_RULE + " | " + STAGE_RULE,
         level_text=("Proof (decision level) + trace oracles: the sender releases a file only on a positive poll answer, in the poll loop and at restart; the "
                     "receiver answers positively only for validated / finalized / logged entries and negatively for failed, received, unknown ones. That every "
@@ -334,7 +334,7 @@ PROPS = {
         coq="Properties/C16.v",
         suites=[e2e_suite("stop", ["stop_now_did_not_terminate", "stop_now_not_prompt", "graceful_stop_did_not_terminate", "graceful_stop_left_work_undone", "confirmed_left_unrecorded_at_exit"], n=24),
                 e2e_suite("plain,faults,vanish", ["pipeline_never_drains_after_vanished_file"], n=8),
-                e2e_suite("stopfail,stopretry", ["graceful_stop_did_not_terminate", "stop_now_did_not_terminate"], n=5)],
+                e2e_suite("stopfail,stopretry,stopjam", ["graceful_stop_did_not_terminate", "stop_now_did_not_terminate", "stop_now_not_prompt"], n=5)],
         rule=E2E_RULE,
         level_text=("Partial. Proof: every poll verdict resolves the file and only confirmed files are recorded done. Exploration: both kinds of stop injected at "
                     "random interface-event indexes (incl. immediately after start = one-shot run), with and without request failures: the sender must exit "
